@@ -75,6 +75,26 @@ SEEDS = {
     "C15_b": ("_incoming2/C15", "C15", ["C15"], "destroy() iterates self.upstreams while removing from it: a node with two or more inputs keeps every second edge"),
     "C16_b": ("_incoming2/C16", "C16", ["C16", "C04"], "_finished() accepts a future that is already done with an exception: a consumer whose awaitable has failed by the time update() returns"),
     "C19_b": ("_incoming2/C19", "C19", ["C19"], "_inform_loop no longer percolates to downstreams of visited nodes: branch an unbound pipeline, bind one branch late, then look at / extend the sibling"),
+    "C01_d": ("_incoming4/C01", "C01", ["C01"], "zip.pack_literals copies at most one stream value per literal: two or more stream arguments directly before a literal, zip(a, b, 'L')"),
+    "C02_d": ("_incoming4/C02", "C02", ["C02"], "map_async decides from the mapped *value* whether to await its consumers: a falsy result (0, None, '') and a native-coroutine consumer"),
+    "C03_d": ("_incoming4/C03", "C03", ["C03", "C13"], "rate_limit returns the downstream awaitable from its gen.coroutine instead of yielding it when no delay is due: an unthrottled element and an asynchronous consumer"),
+    "C04_d": ("_incoming4/C04", "C04", ["C04", "C05"], "partition flushes and releases the metadata of every key when one key's group fills: key= with interleaved keys and counters"),
+    "C05_d": ("_incoming4/C05", "C05", ["C05", "C04"], "zip_latest builds the metadata list once before its drain loop: two or more lossless elements parked before the other input's first value, a holding node downstream"),
+    "C06_d": ("_incoming4/C06", "C06", ["C06"], "groupby_accumulator returns (state, state) for an empty batch: non-windowed groupby mean/var/std and a zero-row batch"),
+    "C07_d": ("_incoming4/C07", "C07", ["C07"], "Full.on_old evicts by index label: window(n).full()/apply() with index labels repeated inside the window"),
+    "C08_d": ("_incoming4/C08", "C08", ["C08", "C01"], "timed_window_unique keep=first tests the stored element's truthiness: a falsy first element of a key and a second element with that key in one window"),
+    "C09_d": ("_incoming4/C09", "C09", ["C09"], "auto.offset.reset flips to earliest after the first partition of the first cycle: two or more partitions, reset=latest, a backlog in a later partition, no committed offset"),
+    "C10_d": ("_incoming4/C10", "C10", ["C10", "C05"], "partition resets its metadata buffer after the awaited flush: another element of the key arriving while the flush is suspended downstream"),
+    "C11_d": ("_incoming4/C11", "C11", ["C11"], "cum* forward-fills the carried row only when *all* columns are missing: a multi-column frame, a batch ending in a row that is NaN in some columns"),
+    "C12_d": ("_incoming4/C12", "C12", ["C12", "C16"], "accumulate emits (state, result) before committing the state: with_state=True and a sibling consumer that raises once on one batch"),
+    "C13_d": ("_incoming4/C13", "C13", ["C13"], "rate_limit caps its sleep at one interval: three or more elements in flight at once"),
+    "C14_d": ("_incoming4/C14", "C14", ["C14"], "latest clears its slot after delivery when the slot still holds the delivered object: the identical object arriving again while the consumer is busy"),
+    "C15_d": ("_incoming4/C15", "C15", ["C15"], "combine_latest caches input positions and renumbers from 0 after a removal: three or more inputs, a middle one disconnected, then an emission from a later one"),
+    "C16_d": ("_incoming4/C16", "C16", ["C16", "C04", "C05"], "_emit retains once per downstream inside the loop: fan-out at the entry point, first branch synchronous, a later branch raising"),
+    "C17_d": ("_incoming4/C17", "C17", ["C17"], "from_textfile cuts the tail with rpartition: a delimiter that overlaps itself ('\\n\\n', 'aa') and a read ending inside an odd run of delimiter characters"),
+    "C18_d": ("_incoming4/C18", "C18", ["C18"], "Source.__init__ resets _run_in_flight after start=True has started the loop: stop(); start() at a suspension point of a source constructed with start=True"),
+    "C19_d": ("_incoming4/C19", "C19", ["C19"], "get_io_loop consults the default Dask client before `asynchronous`: a blocking default client and a pipeline declared asynchronous=True without a loop"),
+    "C20_d": ("_incoming4/C20", "C20", ["C20"], "gather forgets _previous unconditionally when an update finishes: three updates in the gather, the first finishing while the second waits, the third's task finishing first"),
 }
 
 
